@@ -134,6 +134,12 @@ struct carquet_writer {
 
     /* Arena for metadata allocations */
     carquet_arena_t arena;
+
+    /* First error of a call that may have left partial state behind (a batch
+     * that was only partly encoded, a row group that was only partly written
+     * or recorded). Nothing produced after that can be trusted, so every
+     * later write call and carquet_writer_close report it. */
+    carquet_status_t failed;
 };
 
 /* ============================================================================
@@ -160,6 +166,13 @@ void carquet_writer_options_init(carquet_writer_options_t* options) {
  * Internal Helpers
  * ============================================================================
  */
+
+static carquet_status_t writer_fail(carquet_writer_t* writer, carquet_status_t status) {
+    if (writer->failed == CARQUET_OK) {
+        writer->failed = status;
+    }
+    return status;
+}
 
 static carquet_status_t write_magic(FILE* file) {
     if (fwrite(PARQUET_MAGIC, 1, 4, file) != 4) {
@@ -605,16 +618,20 @@ carquet_status_t carquet_writer_write_batch(
         return CARQUET_ERROR_INVALID_ARGUMENT;
     }
 
+    if (writer->failed != CARQUET_OK) {
+        return writer->failed;
+    }
+
     /* Ensure header is written */
     carquet_status_t status = ensure_header_written(writer);
     if (status != CARQUET_OK) {
-        return status;
+        return writer_fail(writer, status);
     }
 
     /* Ensure we have a row group */
     status = ensure_row_group(writer);
     if (status != CARQUET_OK) {
-        return status;
+        return writer_fail(writer, status);
     }
 
     /* Write to the row group */
@@ -627,7 +644,8 @@ carquet_status_t carquet_writer_write_batch(
         rep_levels);
 
     if (status != CARQUET_OK) {
-        return status;
+        /* The page may already hold part of this batch */
+        return writer_fail(writer, status);
     }
 
     writer->column_values_written[column_index] += num_values;
@@ -642,19 +660,33 @@ carquet_status_t carquet_writer_write_batch(
 
 carquet_status_t carquet_writer_new_row_group(carquet_writer_t* writer) {
     /* writer is nonnull per API contract */
+    if (writer->failed != CARQUET_OK) {
+        return writer->failed;
+    }
+
     /* Ensure header is written */
     carquet_status_t status = ensure_header_written(writer);
     if (status != CARQUET_OK) {
-        return status;
+        return writer_fail(writer, status);
     }
 
     /* Flush current row group if any */
-    return flush_row_group(writer);
+    status = flush_row_group(writer);
+    if (status != CARQUET_OK) {
+        /* Part of the row group may be in the file already */
+        return writer_fail(writer, status);
+    }
+    return CARQUET_OK;
 }
 
 carquet_status_t carquet_writer_close(carquet_writer_t* writer) {
     /* writer is nonnull per API contract */
-    carquet_status_t status = CARQUET_OK;
+    carquet_status_t status = writer->failed;
+
+    /* An earlier call failed half-way: the file cannot be completed */
+    if (status != CARQUET_OK) {
+        goto cleanup;
+    }
 
     /* Ensure header is written */
     status = ensure_header_written(writer);
